@@ -28,11 +28,17 @@ def run_mutants(scratch, seed, total, nworkers=vlib.NCPU, max_bytes=8192):
         bad, deaths, aggs, inconcl = [], [], [], 0
         cur = lo
         while cur < hi:
+            to = min(hi, cur + 4000)        # one worker process per <= 4000 cases: a generous wall-clock watchdog per chunk, independent of the tier
             errp = os.path.join(scratch, "mut-w%d.err" % w)
-            with open(errp, "wb") as ef:
-                p = subprocess.run([PROBE, "mutate", "--corpus", cdir, "--seed", str(seed), "--from", str(cur), "--to", str(hi),
-                                    "--max-bytes", str(max_bytes)], stdout=subprocess.PIPE, stderr=ef, env=base_env(),
-                                   timeout=3600)
+            try:
+                with open(errp, "wb") as ef:
+                    p = subprocess.run([PROBE, "mutate", "--corpus", cdir, "--seed", str(seed), "--from", str(cur), "--to", str(to),
+                                        "--max-bytes", str(max_bytes)], stdout=subprocess.PIPE, stderr=ef, env=base_env(),
+                                       timeout=3600)
+            except subprocess.TimeoutExpired:
+                inconcl += 1                # the wall-clock watchdog is not a verdict (loaded machine): the chunk is counted inconclusive
+                cur = to
+                continue
             last, got_agg, marker = None, False, ""
             for l in p.stdout.decode("utf-8", "replace").split("\n"):
                 if l.startswith("BEGIN "):
@@ -45,12 +51,14 @@ def run_mutants(scratch, seed, total, nworkers=vlib.NCPU, max_bytes=8192):
                 elif l.startswith("HANG ") or l.startswith("MEM "):
                     marker = l.strip()
             if got_agg:
-                break
+                cur = to
+                continue
             # the worker died on case `last`
             tail = open(errp, "rb").read()[:30000].decode("utf-8", "replace")
             if last is None:
                 inconcl += 1
-                break
+                cur = to
+                continue
             kind, frame = vlib.classify_death(tail)
             if marker:
                 kind = marker.split()[0]
